@@ -40,7 +40,30 @@ const (
 	nOps
 )
 
-var opNames = []string{"Refresh(A)", "Refresh(B)", "Refresh(bad-early)", "Refresh(bad-ref)", "Refresh(bad-prop)", "Destroy", "log", "log-disabled", "write-handle", "RegisterTag", "GetLogger(aux)", "GetLogger(ghost)"}
+// operations of the breadth-first search only (the exhaustive enumeration keeps the 12 above)
+const (
+	opRefreshC        = nOps + iota // loggers that own their files: File root + asynchronous RollingFile aux, on a real temporary directory
+	opLogAllLevels                  // all 15 entry points through one tag
+	opRegisterInvalid               // RegisterTag with a name outside the language: panics in every state, registers nothing
+	nOpsExt
+)
+
+var opNames = []string{"Refresh(A)", "Refresh(B)", "Refresh(bad-early)", "Refresh(bad-ref)", "Refresh(bad-prop)", "Destroy", "log", "log-disabled", "write-handle", "RegisterTag", "GetLogger(aux)", "GetLogger(ghost)",
+	"Refresh(C)", "log-all-levels", "RegisterTag(invalid)"}
+
+var c16FilesUsed bool
+
+func c16Dir() string { return c15Dir() + "/c16" }
+
+func c16ConfC() map[string]string {
+	d := c16Dir()
+	return map[string]string{
+		"appender.unused.type": "Discard",
+		"logger.root.type":     "File", "logger.root.level": "INFO", "logger.root.fileDir": d, "logger.root.fileName": "c16root.log",
+		"logger.aux.type": "RollingFile", "logger.aux.level": "INFO", "logger.aux.tags": "_vfx_*", "logger.aux.fileDir": d, "logger.aux.fileName": "c16aux.log",
+		"logger.aux.rotation": "h", "logger.aux.maxAge": "24", "logger.aux.async": "true", "logger.aux.bufferSize": "100", "logger.aux.bufferFullPolicy": "Block",
+	}
+}
 
 func c16ConfA() map[string]string {
 	return map[string]string{
@@ -74,18 +97,26 @@ func (m *c16Model) sinksFor(via string) []string {
 		case "B/tag:_vfy_t1", "B/handle:aux":
 			return "rbaux"
 		}
+		if which == "C" {
+			if via == "tag:_vfx_t1" || via == "handle:aux" {
+				return "file:aux"
+			}
+			return "file:root"
+		}
 		if which == "A" {
 			return "ra"
 		}
 		return "rb"
 	}
 	switch m.mode {
-	case "A", "B":
+	case "A", "B", "C":
 		return []string{cfg(m.mode)}
 	case "failedA":
 		return []string{"console", cfg("A"), "nowhere"}
 	case "failedB":
 		return []string{"console", cfg("B"), "nowhere"}
+	case "failedC":
+		return []string{"console", cfg("C"), "nowhere"}
 	}
 	return []string{"console"}
 }
@@ -106,6 +137,10 @@ func c16Run(c c16Case, afterOps func(model string)) (string, []Violation, int) {
 	// reset, forgetting the tag and the handles a previous sequence created
 	log.VerifReset()
 	confReset2()
+	if c16FilesUsed {
+		os.RemoveAll(c16Dir())
+		c16FilesUsed = false
+	}
 	var names []string
 	for _, o := range c.Ops {
 		names = append(names, opNames[o])
@@ -207,6 +242,39 @@ func c16Run(c c16Case, afterOps func(model string)) (string, []Violation, int) {
 			cf := c16ConfA()
 			cf["enableCaller"] = "maybe"
 			refresh(step, cf, "A", false, false, true)
+		case opRefreshC:
+			c16FilesUsed = true
+			os.MkdirAll(c16Dir(), 0755)
+			refresh(step, c16ConfC(), "C", false, false, false)
+		case opLogAllLevels:
+			for _, ep := range entryPoints() {
+				id := fmt.Sprintf("e%d", n)
+				n++
+				sinks := m.sinksFor("tag:_vfx_t1")
+				if ep.level == "TRACE" || ep.level == "DEBUG" { // below the INFO level of every configured logger
+					switch m.mode {
+					case "none", "failedNone":
+						sinks = []string{"console"}
+					case "A", "B", "C":
+						sinks = []string{"nowhere"}
+					default:
+						sinks = []string{"console", "nowhere"}
+					}
+				}
+				if pn := safeCall(func() { ep.call(ctx, tagVfx, id) }); pn != nil {
+					fail("log-call-panicked", fmt.Sprintf("%s: %s through tag _vfx_t1 in state %s panicked: %v", step, ep.name, m.mode, pn))
+					continue
+				}
+				sents = append(sents, sent{id, ep.name + ":_vfx_t1", sinks})
+			}
+		case opRegisterInvalid:
+			before := len(log.GetAllTags())
+			if pn := safeCall(func() { log.RegisterTag("Not A Tag") }); pn == nil {
+				fail("invalid-tag-accepted", fmt.Sprintf("%s in state %s: RegisterTag accepted a name outside the documented language", step, m.mode))
+			}
+			if len(log.GetAllTags()) != before {
+				fail("rejected-but-registered", step+": a rejected name changed the registry")
+			}
 		case opDestroy:
 			if pn := safeCall(log.Destroy); pn != nil {
 				fail("destroy-panicked", fmt.Sprintf("%s: %v", step, pn))
@@ -225,7 +293,7 @@ func c16Run(c c16Case, afterOps func(model string)) (string, []Violation, int) {
 			switch m.mode {
 			case "none", "failedNone":
 				sinks = []string{"console"}
-			case "failedA", "failedB":
+			case "failedA", "failedB", "failedC":
 				sinks = []string{"console", "nowhere"}
 			}
 			if pn := safeCall(func() { log.Trace(ctx, tagVfy, func() []log.Field { return []log.Field{log.Msg(id)} }) }); pn != nil {
@@ -317,6 +385,24 @@ func c16Run(c c16Case, afterOps func(model string)) (string, []Violation, int) {
 		}
 	}
 	recMu.Unlock()
+	if c16FilesUsed {
+		if es, err := os.ReadDir(c16Dir()); err == nil {
+			for _, e := range es {
+				b, _ := os.ReadFile(c16Dir() + "/" + e.Name())
+				sink := "file:root"
+				if strings.HasPrefix(e.Name(), "c16aux") {
+					sink = "file:aux"
+				}
+				for _, line := range strings.Split(string(b), "\n") {
+					if i := strings.Index(line, "msg="); i >= 0 {
+						where[line[i+4:]] = append(where[line[i+4:]], sink)
+					} else if strings.HasPrefix(line, "w") {
+						where[line] = append(where[line], sink)
+					}
+				}
+			}
+		}
+	}
 	for _, line := range strings.Split(consoleBuf.String(), "\n") {
 		if i := strings.Index(line, "msg="); i >= 0 {
 			where[line[i+4:]] = append(where[line[i+4:]], "console")
@@ -371,11 +457,11 @@ func init() {
 			return
 		}
 		maxDepth := 12
-		p.Bounds = fmt.Sprintf("breadth-first search over %d operations (each Refresh under every iteration order of maps of <= 3 keys: 6 variants) from the reset package, successors deduplicated by (deep hash of the package state, model state), depth <= %d or until no new state appears", nOps, maxDepth)
+		p.Bounds = fmt.Sprintf("breadth-first search over %d operations (the 12 of the enumeration + a configuration of file-owning loggers incl. an asynchronous rolling-file logger, all 15 entry points, an invalid registration; each Refresh under every iteration order of maps of <= 3 keys: 6 variants) from the reset package, successors deduplicated by (deep hash of the package state, model state), depth <= %d or until no new state appears", nOpsExt, maxDepth)
 		seen := map[string]bool{}
 		type node struct{ ops, seeds []int }
 		nSeeds := func(o int) int {
-			if o <= opRefreshBadProp {
+			if o <= opRefreshBadProp || o == opRefreshC {
 				return 6 // the five Refresh operations: every iteration order of maps of <= 3 keys
 			}
 			return 1
@@ -408,7 +494,7 @@ func init() {
 					p.Capped = true
 					break
 				}
-				for o := 0; o < nOps; o++ {
+				for o := 0; o < nOpsExt; o++ {
 					for sd := 0; sd < nSeeds(o); sd++ {
 						seq := append(append([]int(nil), h.ops...), o)
 						seeds := append(append([]int(nil), h.seeds...), sd)
@@ -453,10 +539,10 @@ func init() {
 					}
 				}
 				if len(cur) < crossLen {
-					for o := 0; o < nOps; o++ {
+					for o := 0; o < nOpsExt; o++ {
 						ns := nSeeds(o)
 						if len(cur) >= 2 {
-							ns = min(ns, 2) // the third operation: ascending and descending order only
+							ns = 1 // from the third operation on: ascending order only
 						}
 						for sd := 0; sd < ns; sd++ {
 							rec(append(append([]int(nil), cur...), o), append(append([]int(nil), seeds...), sd))
